@@ -264,5 +264,6 @@ let register (reg : string -> (string list -> string) -> unit) =
   reg "rename" (function [a; sc; o] -> rename_case a sc o | [a; sc] -> rename_case a sc "" | _ -> "BADARGS");
   reg "pathsep" (function [d] -> pathsep_case d | [] -> pathsep_case "" | _ -> "BADARGS");
   reg "jsprint" (function [sx] -> jsprint_case sx | _ -> "BADARGS");
+  reg "cssbox" (function [v] -> Stdlib.String.concat "," (Stdlib.List.map (fun n -> string_of_int (int_of_nat n)) (CssBox.box_collapse_nat (intlist v))) | _ -> "BADARGS");
   reg "tokbuf" (function [t; o] -> tokbuf t o | _ -> "BADARGS");
   reg "json_tree" (function [t] -> show_events (JsonSpec.events_of JsonModel.SValue (parse_tree t)) | _ -> "BADARGS")
